@@ -79,6 +79,9 @@ def gen_strings(tier, rnd):
             strings.append(''.join(combo))
     for _ in range(400 if tier == 'quick' else 8000):
         strings.append(''.join(rnd.choice(C04_ALPHABET + ['*', '?', '[', 'b', 'Z', '\x7f', '\x01', ' ', '𝄞']) for _ in range(rnd.randint(3, 40))))
+    # every Unicode class at every site: C0/DEL/C1 controls, 1..4-byte characters, separators, noncharacters
+    for c in ['\x01', '\x08', '\x0b', '\x0c', '\x1b', '\x1f', '\x7f', '\x80', '\x85', '\x9f', '\xa0', '\u0378', '\u2028', '\ufeff', '\uffff', '\U0001f600', '\U0010ffff']:
+        strings += [c, 'a' + c, c + 'b', 'a' + c + 'b', c + c, c + '"', '\\' + c]
     g = 0
     for name, (build, strs, benign) in sites.items():
         for s in strings:
@@ -102,7 +105,7 @@ def gen_strings(tier, rnd):
             if q in s or not s:
                 continue
             lines.append('C %s %s #strs=%s' % (hx('-name %s%s%s -fprint %s%s%s' % (q, s, q, q, s, q)), DEV, ','.join([hx(s), hx('/dev/x')])))
-    return lines, {'rule': '%d string-carrying sites x all strings of length 1..%d over the 14-symbol alphabet (quote, backslash, tilde, percent, parentheses, semicolon, hash, apostrophe, newline, tab, space, a, e-acute) plus random strings up to 40 characters (with glob, control and non-BMP characters); each hostile string paired with a benign string of the same glob class; strftime characters; device paths; the same strings through the parser in both quoting styles; non-trivial = every request' % (len(sites), maxlen),
+    return lines, {'rule': '%d string-carrying sites x all strings of length 1..%d over the 14-symbol alphabet (quote, backslash, tilde, percent, parentheses, semicolon, hash, apostrophe, newline, tab, space, a, e-acute) plus 17 Unicode classes (C0, DEL and C1 controls, 1..4-byte characters, separators, noncharacters) alone and embedded, plus random strings up to 40 characters (with glob, control and non-BMP characters); each hostile string paired with a benign string of the same glob class; strftime characters; device paths; the same strings through the parser in both quoting styles; non-trivial = every request' % (len(sites), maxlen),
                    'streams': {'strings': len(lines)}}
 
 
@@ -223,7 +226,9 @@ def gen_actions(tier, rnd):
         for _ in range(100000):
             multis.append(tuple(rnd.choice(kinds) for _ in range(rnd.randint(5, 6))))
     for combo in multis:
-        leaves = ['(A %s)' % a for a in combo] + ['(T True)'] * rnd.randint(0, 2)
+        fillers = ['(T True)', '(T True)', '(T (Name %s))' % sx_str('m1'), '(T (InsensitiveName %s))' % sx_str('m*'), '(T (Path %s))' % sx_str('m1'),
+                   '(T (Size (GT (KiloByte 1))))']
+        leaves = ['(A %s)' % a for a in combo] + [rnd.choice(fillers) for _ in range(rnd.randint(0, 3))]
         rnd.shuffle(leaves)
         if not leaves:
             leaves = ['(T True)']
@@ -239,7 +244,7 @@ def gen_actions(tier, rnd):
         for l in leaves[1:]:
             tree = '(And %s %s)' % (tree, l)
         lines.append(T(tree))
-    return lines, {'rule': 'all multisets of up to %d actions drawn from every output-producing action (stdout/3 file names x newline/NUL/formatted, print-file-fid, formats ending/not ending in a newline escape, empty format) and -quit, shuffled into random operator trees (exhaustive over multisets)%s; one family with 1..300 distinct destinations; non-trivial = every request' % (maxk, '' if tier == 'quick' else ' plus 100000 random multisets of 5..6'),
+    return lines, {'rule': 'all multisets of up to %d actions drawn from every output-producing action (stdout/3 file names x newline/NUL/formatted, print-file-fid, formats ending/not ending in a newline escape, empty format) and -quit, shuffled together with 0..3 tests (constants, name/path matchers that consume generated-name indices, a size test) into random operator trees (exhaustive over multisets)%s; one family with 1..300 distinct destinations; non-trivial = every request' % (maxk, '' if tier == 'quick' else ' plus 100000 random multisets of 5..6'),
                    'streams': {'actions': len(lines)}}
 
 
